@@ -146,9 +146,11 @@ theorem importNameFrom_spec (n : Name) (dn dn' : DistinguishedName) (hinv : Inv 
     simp only [importNameFrom] at h
     split at h
     · rename_i a
-      cases hv : importValue a with
-      | error e => simp [hv] at h
-      | ok v =>
+      split at h
+      · cases h
+      · cases hv : importValue a with
+        | error e => simp [hv] at h
+        | ok v =>
         simp only [hv] at h
         split at h
         · cases h
